@@ -105,7 +105,7 @@ def gen_env(rnd, ntypes=None, max_members=6, allow_unlimited=True):
 
 def gen_scalar(rnd, b):
     if b["k"] == "flt":
-        x = rnd.choice([0.0, 1.0, -2.5, 0.15625, 1e10, -3.0e-5, 123456.0])
+        x = rnd.choice([0.0, 1.0, -2.5, 0.15625, 1e10, -3.0e-5, 123456.0, -0.0, float("inf"), float("-inf"), float("nan")])
         return tuple(pystruct.pack("<f" if b["w"] == 4 else "<d", x))
     if b["k"] == "byte":
         return (rnd.choice([0, 1, 9, 10, 13, 32, 39, 65, 92, 127, 128, 255]),)
